@@ -61,8 +61,15 @@ def brng_tape(lib, key, iv, n):
     return lib.rd(buf, n)
 
 
-def selftest(lib):
+def selftest(lib, ctx=None):
     bad = M.selftest(lib)
+    # the model takes the standard public keys from the library (tables A.1 - A.4 are data of the standard): if those are not
+    # 17 distinct irreducible polynomials it is the library's table that is wrong, not the model
+    tbl = [b for b in bad if b.startswith("std keys")]
+    if tbl and ctx is not None:
+        ctx.case(["belsStdM-table"] + tbl, "stdm:table")
+        ctx.violation("belsStdM:standard-keys-not-distinct-irreducible", "the standard public keys the library supplies are not 17 distinct "
+                      "irreducible polynomials of the right degree", {"selftest": tbl})
     if bad:
         raise Harness("ref/bels.py self-test failed: %s" % bad[:5])
 
@@ -282,7 +289,7 @@ def subfield_element(m0, rng):
 def unit_keys(ctx):
     """belsStdM / belsValM on the tables, belsGenM0 / belsGenMi / belsGenMid against the model"""
     lib, rng = ctx.lib, ctx.rng
-    selftest(lib)
+    selftest(lib, ctx)
     ln, n = ctx.params["len"], ctx.params["n"]
     std = M.std_keys(lib, ln)
     if ctx.params.get("chunk", 0) == 0:
@@ -297,6 +304,16 @@ def unit_keys(ctx):
             if r != 0 or rv != 0:
                 ctx.violation("belsStdM:ret:stdm", "standard key not loaded / not valid", {"len": ln, "num": num, "ret": errname(r), "val": errname(rv)})
             lib.release()
+        # the 17 standard keys of a length are pairwise distinct (sharing needs distinct moduli: with two equal ones the
+        # shares of those users coincide and recovery from both is refused)
+        if ctx.case(["belsStdM-distinct", ln], "stdm:distinct"):
+            dup = sorted({(i, j) for i in range(17) for j in range(i + 1, 17) if std[i] == std[j]})
+            ctx.digest(len(dup))
+            if dup:
+                ctx.violation("belsStdM:duplicate-standard-keys", "two standard public keys of one length are equal",
+                              {"len": ln, "pairs": dup, "key": std[dup[0][0]]})
+            if not all(M.is_valid(k) for k in std):
+                ctx.violation("belsStdM:reducible-standard-key", "a standard public key is not irreducible of degree 8 len", {"len": ln})
     for it in range(n):
         # a "generated" common key, defined by the model: minimal polynomial over the standard field
         m0 = run_genmi(ctx, ln, std[0], rng.randbytes(ln), "genmi:std-m0")
@@ -429,7 +446,7 @@ def subsets_for(count, t, exh, nrnd, rng):
 
 def unit_deals(ctx):
     lib, rng = ctx.lib, ctx.rng
-    selftest(lib)
+    selftest(lib, ctx)
     P = ctx.params
     ln, api = P["len"], P["api"]
     exh, nrnd = P["exh"], P["rnd"]
